@@ -167,7 +167,7 @@ def check(prop_id, tier="quick", seed=0):
                 tot["states"] += int(res.get("distinct_nontrivial", 0)); tot["transitions"] += int(res.get("evaluations", 0))
             else:
                 tot["states"] += int(res.get("states", 0)); tot["transitions"] += int(res.get("transitions", 0))
-            tot["evaluations"] += int(res.get("evaluations", res.get("transitions", 0)))
+            tot["evaluations"] += int(res.get("elementary_evaluations", res.get("evaluations", res.get("transitions", 0))))
             tot["distinct"] += int(res.get("distinct_nontrivial", res.get("states", 0)))
             if not res.get("exhaustive", True): exhaustive = False
             for s in res.get("samples", [])[:3]: samples.append({"leg": leg.name, "case": s})
